@@ -102,6 +102,7 @@ def run(v, tier, seed):
         rep = W("explore.ndjson"); tr = W("trace.ndjson")
         rc.run_refl(["explore", "c13", histories, ncmds, seed, rep, tr, ntraces], timeout=(300 if tier == "quick" else 2400))
         rows = vlib.read_ndjson(rep)
+        if any(r.get("hang") for r in rows): return rows, "NotAccepted", None, tr      # ended by the watchdog (reported from the rows): the trace file is cut off
         if not os.path.exists(os.path.join(vlib.SPEC, rc.FAMILY, "IndexTrace.cfg")): raise vlib.MachineryError("spec/Reflector/IndexTrace.cfg is missing")
         r = vlib.tlc("IndexTrace", "IndexTrace.cfg", rc.FAMILY, workers=1, timeout=(600 if tier == "quick" else 3000), env={"TRACE": tr}, keep_out=True, heap="6g")
         if r.error and not r.violated: raise vlib.MachineryError("IndexTrace: " + r.error)
